@@ -18,7 +18,7 @@ RULE = ("30 keys x 7 degrees x {triad, seventh} x {triads()/sevenths(), function
         "substitute x depth 0..2 on every numeral x suffix x prefix -3..+3 (enumerated, in 5 major keys quick / 15 "
         "thorough) and at every index of Hypothesis progressions of length 1..4. Non-trivial: key with accidentals, or "
         "prefix != 0, or non-empty suffix, or depth > 0."
-        ' Also: whole progressions with repeated degrees checked element-wise; negative indices; the documented recursion relation of substitute (depth d = depth 0 plus the depth d-1 substitutions of each result).')
+        ' Also: whole progressions with repeated degrees checked element-wise; negative indices; the documented recursion relation of substitute (depth d = depth 0 plus the depth d-1 substitutions of each result); every attribute name of the theory modules and Hypothesis ASCII text as unrecognised numerals.')
 ASSUMPTIONS = [
     "chord notes are compared on letter + pitch class + unmixed + <= 6 accidentals against own key notes / formulas",
     "chord -> function is asserted in major keys only; the expected numeral is looked up case-insensitively among the "
@@ -325,6 +325,22 @@ def sub_unrecognised(ctx, shard, n):
     cases = [c for c in cases if R.parse_numeral(c[1])[0] not in NUM]
     ctx.exhaustive("unrecognised numerals", "I/V strings of length 0..5 that are no numeral x prefix x suffix x 30 keys", len(cases))
     ctx.enumerate("unrecognised", check_unrecognised, cases)
+    # words that mean something elsewhere in the library (every attribute name of the theory modules) are no numerals either
+    import mingus.core as core_pkg
+    import pkgutil
+    words = set()
+    for m in pkgutil.iter_modules(core_pkg.__path__):
+        words.add(m.name)
+        try:
+            words.update(dir(__import__("mingus.core." + m.name, fromlist=["x"])))
+        except Exception:  # noqa
+            pass
+    words = sorted(w for w in words if R.parse_numeral(w)[0] not in NUM and R.parse_numeral("b" + w)[0] not in NUM)
+    wcases = [[k, p + w] for k in ("C", "Eb", "f#") for w in words for p in ("", "b", "#")]
+    ctx.exhaustive("unrecognised numerals: attribute names of the theory modules", "%d names x prefix x 3 keys" % len(words), len(wcases))
+    ctx.enumerate("unrecognised", check_unrecognised, wcases)
+    text = st.text(alphabet=st.characters(min_codepoint=32, max_codepoint=126), min_size=0, max_size=8)
+    ctx.given("unrecognised", check_unrecognised, st.tuples(st.sampled_from(T.ALL_KEYS), text).map(list), 400 if ctx.quick else 5000)
 
 
 def _elements():
